@@ -17,10 +17,13 @@ limitations under the License.
 package logging
 
 import (
+	"bytes"
 	"encoding/hex"
 	"encoding/json"
+	"errors"
 	"fmt"
 	"github.com/sirupsen/logrus"
+	"io"
 	"sort"
 	"strings"
 )
@@ -149,9 +152,8 @@ func (parser *PlaintextLogParser) ParseEntry(rawData string) (*ParsedLogEntry, e
 // {"chain": "<val>","integrity":"<val>", "level":"<val>","msg":"<val>","product":"<val>","timestamp":"<val>","unixTime":"<val>","version":"<val>"}
 // {"integrity":"<val>", "level":"<val>","msg":"<val>","product":"<val>","timestamp":"<val>","unixTime":"<val>","version":"<val>"}
 func (parser *JSONLogParser) ParseEntry(rawData string) (*ParsedLogEntry, error) {
-	parsed := make(map[string]interface{})
 	logEntry := &ParsedLogEntry{}
-	err := json.Unmarshal([]byte(rawData), &parsed)
+	parsed, err := unmarshalLogEntry([]byte(rawData))
 	if err != nil {
 		return nil, fmt.Errorf("[json] can't parse integrity: %w", err)
 	}
@@ -187,6 +189,27 @@ func (parser *JSONLogParser) ParseEntry(rawData string) (*ParsedLogEntry, error)
 	}
 	logEntry.RawData = entryData
 	return logEntry, nil
+}
+
+// errDataAfterLogEntry is returned when a JSON log entry is followed by anything but white space
+var errDataAfterLogEntry = errors.New("unexpected data after JSON log entry")
+
+// unmarshalLogEntry decodes a JSON log entry for the integrity computation. Numbers are kept exactly
+// as they are written (json.Number): decoded into float64, integers above 2^53 would be rounded, so the
+// entry would be logged with another value than the one passed to the logger, and number literals that
+// round to the same float64 could be exchanged in a protected entry without changing its integrity check.
+func unmarshalLogEntry(data []byte) (map[string]interface{}, error) {
+	parsed := make(map[string]interface{})
+	decoder := json.NewDecoder(bytes.NewReader(data))
+	decoder.UseNumber()
+	if err := decoder.Decode(&parsed); err != nil {
+		return nil, err
+	}
+	// like json.Unmarshal, accept nothing but white space after the entry
+	if _, err := decoder.Token(); err != io.EOF {
+		return nil, errDataAfterLogEntry
+	}
+	return parsed, nil
 }
 
 func convertMapToBytes(parsed map[string]interface{}) ([]byte, error) {
